@@ -1,7 +1,9 @@
 """C05 — translate_rotate is the exact rigid motion on every object.
 
-  T1 MATRIX     every 2x2 rotation block built in geometry/transform.py is (c, -s; s, c) with
-                (c, s) = (cos x, sin x) of the angle parameter, or (1, 0) under `x == 0`
+  T1 MATRIX     rotation_translation_matrix / translation_rotation_matrix evaluated on atoms (c05ev.matrix_rule): the
+                3 x 3 result is, entry by entry on sample values, the rigid motion of the given order — for five
+                angles including 0, a tiny one and 2 pi
+  T8 ANGLES     is_valid_orientation (asserted by every translate_rotate) accepts exactly [-2pi, 2pi], ends included
   T2 COVERAGE   each translate_rotate moves every spatial attribute of its class
   T3 FANOUT     nested translate_rotate / transform calls receive the method's own (translation, angle)
   T4 PROTOCOL   every class a translate_rotate is invoked on (typed receivers, e.g. the obstacle union
